@@ -3,7 +3,7 @@
 
 Static analysis (AST walk over bip_utils/**/*.py), conservative:
  * mutable attribute = `self.<attr>` assigned in a method other than __init__ (e.g. ConvertToPublic, Use* setters),
-   excluding lazily initialised idempotent fields listed in LAZY_OK (their value is a function of immutable fields);
+   excluding lazily initialised fields (every assignment guarded by a test of the field itself, see analyse());
  * a method is *tainted* if it reads a mutable attribute of its class, or calls (on self or on a field of self) a method
    name that is tainted in the field's annotated class or any subclass of it; propagated to a fixed point;
  * for every method decorated with lru_cache the table lists the mutable attributes it can reach."""
@@ -11,9 +11,7 @@ import ast, os, sys
 sys.path.insert(0, os.path.dirname(os.path.dirname(os.path.abspath(__file__))))
 from harness.core import write_if_changed, LEAN
 
-ROOT = "/repo/bip_utils"
-# lazily computed coordinates / singletons: assigned outside __init__ but a pure function of immutable state
-LAZY_OK = {("Ed25519Point", "m_x"), ("Ed25519Point", "m_y"), ("MnemonicWordsListGetterBase", "m_words_lists")}
+ROOT = os.environ.get("VERIF_BIP_UTILS_SRC", "/repo/bip_utils")   # override only for offline experiments on a scratch checkout
 
 
 def analyse():
@@ -52,18 +50,51 @@ def analyse():
                 out.append(n)
                 todo += classes[n]["bases"]
         return out
-    # mutable attributes
+    # mutable attributes.  An attribute assigned outside __init__ is *lazily initialised* (not mutable state) when every such
+    # assignment sits under an `if` whose test inspects the attribute itself (`if self.a is None:` …): the first call fixes the
+    # value.  If the enclosing method takes arguments that the guard does not mention, the stored value may depend on them:
+    # that is a hand-rolled memo keyed on nothing, recorded below like an `lru_cache` entry with the ignored arguments.
     mutable = set()
+    lazy_sites = {}       # (class, attr) -> [(method, guarded, ignored args)]
     for cn, c in classes.items():
         for mn, fn in c["methods"].items():
             if mn == "__init__":
                 continue
+            parents = {}
+            for n in ast.walk(fn):
+                for ch in ast.iter_child_nodes(n):
+                    parents[ch] = n
+            params = [a.arg for a in fn.args.args[1:]] + [a.arg for a in fn.args.kwonlyargs]
             for n in ast.walk(fn):
                 if isinstance(n, (ast.Assign, ast.AugAssign, ast.AnnAssign)):
                     tg = n.targets if isinstance(n, ast.Assign) else [n.target]
                     for t in tg:
-                        if isinstance(t, ast.Attribute) and isinstance(t.value, ast.Name) and t.value.id == "self" and (cn, t.attr) not in LAZY_OK:
-                            mutable.add((cn, t.attr))
+                        if isinstance(t, ast.Tuple):
+                            tg = tg + list(t.elts)
+                    together = {t.attr for t in tg if isinstance(t, ast.Attribute) and isinstance(t.value, ast.Name) and t.value.id == "self"}
+                    for t in tg:
+                        if isinstance(t, ast.Attribute) and isinstance(t.value, ast.Name) and t.value.id == "self":
+                            guarded, names = False, set()
+                            q = n
+                            while q in parents and not guarded:
+                                q = parents[q]
+                                if isinstance(q, ast.If):
+                                    for x in ast.walk(q.test):
+                                        if isinstance(x, ast.Attribute) and isinstance(x.value, ast.Name) and x.value.id == "self" and x.attr in together:
+                                            guarded = True
+                                        if isinstance(x, ast.Name):
+                                            names.add(x.id)
+                            used = {x.id for x in ast.walk(n.value) if isinstance(x, ast.Name)} if not isinstance(n, ast.AugAssign) and n.value is not None else set()
+                            ignored = [p for p in params if p in used and p not in names]
+                            lazy_sites.setdefault((cn, t.attr), []).append((mn, guarded and not isinstance(n, ast.AugAssign), ignored))
+    hand_memo = []
+    for (cn, attr), sites in lazy_sites.items():
+        if all(g for _, g, _ in sites):
+            for mn, _, ignored in sites:
+                if ignored:
+                    hand_memo.append((cn, mn, ["argument %s ignored by the stored value of %s" % (p, attr) for p in ignored]))
+        else:
+            mutable.add((cn, attr))
     def field_types(cn, field):
         out = []
         for a in ancestors(cn):
@@ -136,6 +167,8 @@ def analyse():
                 nm = d.func if isinstance(d, ast.Call) else d
                 if (isinstance(nm, ast.Name) and nm.id == "lru_cache") or (isinstance(nm, ast.Attribute) and nm.attr == "lru_cache"):
                     cached.append((cn, mn, c["file"], sorted("%s.%s" % x for x in reach[(cn, mn)])))
+    for cn, mn, why in hand_memo:
+        cached.append((cn, mn, classes[cn]["file"], sorted(why)))
     return sorted(cached), sorted(mutable)
 
 
